@@ -42,7 +42,8 @@ PROPS = {
     "C07": dict(units=["u4_policy", "u1_estimator", "u19_async_policy", "u8_builder", "u8_builder_async", "u6_store", "u7_glue", "u19_async"], kani=[], replay=["policy", "estimator", "cache", "async_cache"]),
     "C13": dict(units=["u1_estimator", "u8_builder", "u8_builder_async"], kani=["bbloom"], replay=["estimator", "cache"]),
     "C14": dict(units=["u1_estimator"], kani=["bbloom"], replay=["estimator"]),
-    "C20": dict(units=["u1_estimator", "u8_builder", "u7_glue", "u19_async", "u8_builder_async", "u6_store"], kani=["bbloom", "ttl"], replay=["estimator", "cache", "async_cache"]),
+    "C20": dict(units=["u1_estimator", "u8_builder", "u7_glue", "u19_async", "u8_builder_async", "u6_store"], kani=["bbloom", "ttl"], replay=["estimator", "cache", "async_cache"], probes=[("cache", "huge_cost_update_keeps_the_worker_alive")],
+                guards=[("cache", "extreme_configurations_work"), ("async_cache", "async_extreme_configurations_work")]),
     "C02": dict(units=["u6_store", "u7_glue", "u19_async", "u8_builder", "u8_builder_async", "u10_valueref"], kani=["keys"], replay=["ttl", "async_sweep", "cache", "async_cache"]),
     "C03": dict(units=["u6_store", "u7_glue", "u19_async", "u10_valueref"], kani=["ttl"], replay=["ttl", "async_sweep"]),
     "C04": dict(units=["u6_store", "u4_policy", "u7_glue", "u19_async", "u19_async_policy", "u8_builder", "u8_builder_async"], kani=["ttl", "keys"], replay=["ttl", "async_sweep", "policy", "cache", "async_cache"]),
@@ -56,7 +57,8 @@ PROPS = {
     "C15": dict(units=["u7_glue", "u1_estimator", "u8_builder", "u19_async", "u8_builder_async", "u9_metrics"], kani=[], replay=["estimator", "cache"]),
     "C16": dict(units=["u7_glue", "u4_policy", "u6_store", "u8_builder", "u19_async", "u19_async_policy", "u8_builder_async"], kani=[], replay=["policy", "ttl", "async_sweep", "cache", "async_cache"]),
     "C17": dict(units=["u7_glue", "u4_policy", "u8_builder", "u19_async", "u19_async_policy", "u9_metrics", "u8_builder_async"], kani=["histogram"], replay=["policy", "cache", "async_cache"]),
-    "C19": dict(units=["u19_async", "u19_async_policy", "u6_store", "u8_builder_async"], kani=[], replay=["async_cache", "ttl", "async_sweep"]),
+    # guards: bounded stand-ins that run on EVERY check of the property, for code no contract reaches (spawn loops, tickers, channels)
+    "C19": dict(guards=[("async_cache", "async_extreme_configurations_work")], units=["u19_async", "u19_async_policy", "u6_store", "u8_builder_async"], kani=[], replay=["async_cache", "ttl", "async_sweep"]),
 }
 
 ASSUMPTIONS = {
@@ -64,6 +66,6 @@ ASSUMPTIONS = {
     "A-atomic": "R10: SampledLFU.max_cost (AtomicI64) is treated as a plain i64 inside a critical section: every writer (LFUPolicy::update_max_cost) takes the policy mutex first.",
     "A-metrics": "R9: inside the policy/glue units Arc<Metrics> is modelled as a ledger of unbounded integer counters (prelude/metrics_model.rs). That model is no longer free-standing: unit u9_metrics verifies MetricsInner::{add,get,clear,track_eviction, 11 getters} and Metrics::{is_op,is_noop,add,clear,track_eviction} against 'counter of a type = sum of its 256 stripes' with the atomics erased (sequential execution) and BTreeMap::get as a trusted finite-map lookup. Still trusted: the correspondence ledger-model <-> u9 contracts is by matching clause text, MetricsInner::new (iterator chain + vec_to_array), sums stay below 2^64, the closure-taking Metrics::get_* wrappers (Metrics::map).",
     "A-hashmap": "vstd's specifications of std::collections::HashMap (insert/get/remove/contains_key/clear/len/iter) plus the assumed specification of HashMap::get_mut in prelude/hashmap_get_mut.rs; obeys_key_model::<u64>() and builds_valid_hashers::<S>() are preconditions (true for u64 keys and std/RandomState-like hashers).",
-    "A-range": "machine arithmetic is checked, not idealised: every +,-,*,<<,as is proved free of overflow under the stated input range (non-negative costs, |max_cost| and charged total below 2^60).",
+    "A-range": "machine arithmetic is checked, not idealised: every +,-,*,<<,as is proved free of overflow under the stated input range: non-negative costs, |max_cost| and charged total below 2^60, clock readings below 2^40 s (year 36812), metric stripe sums below 2^64. TTLs are NOT restricted: every Duration up to Duration::MAX is covered (the deadline saturates; finding F14 came from an earlier restriction here). Inputs outside the range (negative or astronomically large costs) are not decided.",
     "A-z3": "Z3 (Verus back end) and CBMC/CaDiCaL (Kani back end) are trusted.",
 }
